@@ -14,35 +14,7 @@ from pyvc.exec import Exec
 F = "circuitgraph/sat.py"
 
 
-def gateok(ctx, ex, g, mu, n):
-    """the gate equation of node n (DESIGN 4.3) under the assignment mu (restricted to node names)"""
-    T = ctx.tval
-    O = ctx.Obj
-    val = lambda x: z3.Select(mu, O.nm(x))
-    f, a, b = ctx.fresh_name("gf"), ctx.fresh_name("ga"), ctx.fresh_name("gb")
-    t = z3.Select(g.ty, n)
-    fi = lambda x: g.edge(x, n)
-    all_ = z3.ForAll([f], z3.Implies(fi(f), val(f)))
-    any_ = z3.Exists([f], z3.And(fi(f), val(f)))
-    one = lambda body: z3.ForAll([a], z3.Implies(z3.And(fi(a), z3.ForAll([f], z3.Implies(fi(f), f == a))), body(a)))
-    two = lambda body: z3.ForAll([a, b], z3.Implies(z3.And(a != b, fi(a), fi(b), z3.ForAll([f], z3.Implies(fi(f), z3.Or(f == a, f == b)))), body(a, b)))
-    return z3.And(
-        z3.Implies(t == T["and"], val(n) == all_), z3.Implies(t == T["nand"], val(n) == z3.Not(all_)),
-        z3.Implies(t == T["or"], val(n) == any_), z3.Implies(t == T["nor"], val(n) == z3.Not(any_)),
-        z3.Implies(z3.Or(t == T["buf"], t == T["bb_input"]), one(lambda p: val(n) == val(p))),
-        z3.Implies(t == T["not"], one(lambda p: val(n) == z3.Not(val(p)))),
-        z3.Implies(t == T["xor"], z3.And(one(lambda p: val(n) == val(p)), two(lambda p, q: val(n) == z3.Xor(val(p), val(q))))),
-        z3.Implies(t == T["xnor"], z3.And(one(lambda p: val(n) == z3.Not(val(p))), two(lambda p, q: val(n) == z3.Not(z3.Xor(val(p), val(q)))))),
-        z3.Implies(t == T["0"], z3.Not(val(n))), z3.Implies(t == T["1"], val(n)))
-
-
-def witness(ctx, mu):
-    """values of the auxiliary objects that make the encoding satisfiable (given in the sidecar, DESIGN 8 C01)"""
-    O = ctx.Obj
-    p, q = ctx.fresh("wp", O), ctx.fresh("wq", O)
-    n = ctx.fresh_name("wn")
-    return z3.And(z3.ForAll([p, q], z3.Select(mu, O.xorpair(p, q)) == z3.Xor(z3.Select(mu, p), z3.Select(mu, q))),
-                  z3.ForAll([n], z3.Select(mu, O.xorinv(n)) == z3.Not(z3.Select(mu, O.nm(n)))))
+from pyvc.spec import gateok, witness, cnf_domain  # noqa: E402
 
 
 def cnf_task(ctx):
@@ -84,16 +56,8 @@ def cnf_task(ctx):
     c = verify.mk_circuit(ex, st0, "c")
     H["c"] = c
     g = st0.g(c)
-    x, y, z = ctx.fresh_name("rx"), ctx.fresh_name("ry"), ctx.fresh_name("rz")
-    st0.pc.append(z3.ForAll([x], z3.Implies(g.node(x), z3.Select(g.hasty, x))))
-    tin = lambda t, L: z3.Or([t == T[k] for k in L])
     ty = lambda n: z3.Select(g.ty, n)
-    # domain (lint-clean circuits): single-input types have at most one driver; parity gates are driven; and the
-    # variant restriction of this proof: parity gates have at most two drivers
-    st0.pc.append(z3.ForAll([x, y, z], z3.Implies(z3.And(g.edge(x, z), g.edge(y, z), tin(ty(z), ["buf", "not", "bb_input"])), x == y)))
-    st0.pc.append(z3.ForAll([z], z3.Implies(z3.And(g.node(z), tin(ty(z), ["xor", "xnor"])), z3.Exists([x], g.edge(x, z)))))
-    w = ctx.fresh_name("rw")
-    st0.pc.append(z3.ForAll([x, y, w, z], z3.Implies(z3.And(g.edge(x, z), g.edge(y, z), g.edge(w, z), tin(ty(z), ["xor", "xnor"])), z3.Or(x == y, x == w, y == w))))
+    st0.pc.extend(cnf_domain(ctx, g))
     outs = verify.bind_and_run(ex, fn, st0, {"c": c})
     mu = models.mu_of(ex)
     m = ctx.fresh_name("pm")
@@ -119,3 +83,121 @@ def cnf_task(ctx):
 
 
 TASKS = {"C01/cnf": cnf_task}
+
+
+# ----------------------------------------------------------------------------------------------- solve()
+from contracts import sat_contracts  # noqa: E402
+from pyvc.engine import DictV, NONE, NameV, ObjRef, alloc  # noqa: E402
+from pyvc.exec import ClassV  # noqa: E402
+
+
+def _sym_assumptions(ctx, tag="A"):
+    dom = ctx.arr_nb(tag + "_dom")
+    val = ctx.arr_nb(tag + "_val")
+    return DictV(lambda x: z3.Select(dom, x), lambda x: z3.Select(val, x), vkind="bool")
+
+
+def add_assumptions_task(ctx):
+    fn, seg, sha = engine.find_function(F, "add_assumptions")
+
+    def loop(ex, s, st, it, ordinal):
+        formula = st.env["formula"]
+        rec0 = st.heap[formula.oid]
+        A = st.env["assumptions"]
+        mu = models.mu_of(ex)
+        def inv(ex, stx, done):
+            rec = stx.heap[formula.oid]
+            n, o = ctx.fresh_name("an"), ctx.fresh("ao", ctx.Obj)
+            return [("clauses", rec["sat"] == z3.And(rec0["sat"], z3.ForAll([n], z3.Implies(done.mem(n), z3.Select(mu, ctx.Obj.nm(n)) == A.val(n))))),
+                    ("variables", z3.ForAll([o], z3.Select(rec["men"], o) == z3.Or(z3.Select(rec0["men"], o), z3.Exists([n], z3.And(done.mem(n), o == ctx.Obj.nm(n))))))]
+        return ex.invariant_for(s, st, it, ordinal, inv, mod_objs=[formula], label="assumptions")
+
+    ex = Exec(ctx, summaries={}, module_consts={}, loop_specs={1: loop}, fname="add_assumptions")
+    st0 = State({}, {}, [])
+    formula = ObjRef(alloc(st0, {"kind": "CNF", "sat": ctx.fresh("Sat0", z3.BoolSort()), "men": ctx.fresh("men0", z3.ArraySort(ctx.Obj, z3.BoolSort()))}, "cnf"), "CNF")
+    variables = ObjRef(alloc(st0, {"kind": "IDPool"}, "idpool"), "IDPool")
+    A = _sym_assumptions(ctx)
+    body = verify.bind_and_run(ex, fn, st0, {"formula": formula, "variables": variables, "assumptions": A})
+    specs = verify.run_summary(ex, sat_contracts.s_add_assumptions, st0, None, [formula, variables, A], {})
+    verify.refine_vcs(ex, "add_assumptions", st0, body, specs)
+    return {"function": f"{F}::add_assumptions", "sha256": sha, "lines": [fn.lineno, fn.end_lineno], "variants": ["dict name->bool"]}
+
+
+def solve_task(with_assumptions):
+    def run(ctx):
+        fn_s, _, sha_s = engine.find_function(F, "solve")
+        fn_c, _, sha_c = engine.find_function(F, "construct_solver")
+        label = f"solve[{'assumptions' if with_assumptions else 'no assumptions'}]"
+        summaries = dict(layer1.SUMMARIES)
+        summaries.update(sat_contracts.SUMMARIES)
+        ex = Exec(ctx, summaries=summaries, module_consts=engine.module_constants("circuitgraph/circuit.py"), fname=label)
+        T = ctx.tval
+        st0 = State({}, {}, [])
+        c = verify.mk_circuit(ex, st0, "c")
+        g = st0.g(c)
+        st0.pc.extend(spec.cnf_domain(ctx, g))
+        A = _sym_assumptions(ctx) if with_assumptions else NONE
+        if with_assumptions:
+            x = ctx.fresh_name("ne")
+            st0.pc.append(z3.Exists([x], A.dom(x)))
+        mu = models.mu_of(ex)
+
+        # construct_solver is executed through its real body: it is inlined as a summary built from that body
+        def s_construct_solver(ex_, st, recv, args, kw, e):
+            """construct_solver is executed through its REAL body, inlined at the call site: its paths become decision
+            points of the caller's exploration (raising paths via split_raise, returning paths via choice)"""
+            outs = verify.bind_and_run(ex_, fn_c, st, {"c": args[0], "assumptions": args[1] if len(args) > 1 else NONE, "Cadical153": ClassV("Solver")})
+            base = len(st.pc)
+            cond_of = lambda o: z3.And(o.st.pc[base:]) if len(o.st.pc) > base else z3.BoolVal(True)
+            for o in outs:
+                if o.kind == "raise":
+                    ex_.split_raise(st, cond_of(o), o.exc)
+            norm = [o for o in outs if o.kind == "return"]
+            if not norm:
+                raise engine.Unsupported("construct_solver: no normal path")
+            chosen = norm[-1]
+            for o in norm[:-1]:
+                if ex_.choice(st, cond_of(o)):
+                    chosen = o
+                    break
+            st.heap.update(chosen.st.heap)
+            for f_ in chosen.st.pc[base:]:
+                st.pc.append(f_)
+            return chosen.value
+        ex.summaries["construct_solver"] = s_construct_solver
+        ex.consts = dict(ex.consts)
+        outs = verify.bind_and_run(ex, fn_s, st0, {"c": c, "assumptions": A})
+        cons = spec.consistent(ctx, ex, g, mu)
+        n = ctx.fresh_name("pn")
+        agrees_mu = z3.ForAll([n], z3.Implies(A.dom(n), z3.Select(mu, ctx.Obj.nm(n)) == A.val(n))) if with_assumptions else z3.BoolVal(True)
+        kinds = set()
+        for o in outs:
+            i = o.st.pathid()
+            if o.kind == "raise":
+                kinds.add("raise")
+                bad_type = z3.Exists([n], z3.And(g.node(n), z3.Not(z3.Or([z3.Select(g.ty, n) == T[k] for k in spec.ENCODABLE]))))
+                bad_key = z3.Exists([n], z3.And(A.dom(n), z3.Not(g.node(n)))) if with_assumptions else z3.BoolVal(False)
+                ctx.oblige(f"{label}/post-exc#{i}:ValueError-only-for-unencodable-type-or-unknown-assumption-key", o.st.pc,
+                           z3.And(z3.BoolVal(o.exc == "ValueError"), z3.Or(bad_type, bad_key)), "post-exc")
+            elif isinstance(o.value, bool) and o.value is False:
+                kinds.add("False")
+                ctx.oblige(f"{label}/post#{i}:False-only-if-no-consistent-valuation(with-witness-auxiliaries)-agrees-with-A", o.st.pc,
+                           z3.Not(z3.And(spec.witness(ctx, mu), cons, agrees_mu)), "post")
+            else:
+                kinds.add("dict")
+                res = o.value
+                rv = lambda t: res.val(t)
+                ctx.oblige(f"{label}/post#{i}:result-is-defined-exactly-on-the-nodes", o.st.pc, z3.ForAll([n], res.dom(n) == g.node(n)), "post")
+                # the returned valuation is mu restricted to the nodes: consistent and agreeing with A
+                ctx.oblige(f"{label}/post#{i}:result-reads-the-model", o.st.pc, z3.ForAll([n], z3.Implies(g.node(n), rv(n) == z3.Select(mu, ctx.Obj.nm(n)))), "post")
+                ctx.oblige(f"{label}/post#{i}:result-is-a-consistent-valuation", o.st.pc, cons, "post")
+                ctx.oblige(f"{label}/post#{i}:result-agrees-with-A", o.st.pc, agrees_mu, "post")
+            ctx.oblige(f"{label}/frame#{i}:circuit-untouched", o.st.pc, verify.heap_eq(ex, o.st.heap, st0.heap, list(st0.heap)), "frame")
+        ctx.oblige(f"{label}/cover:all-three-outcomes-reachable", [], z3.BoolVal({"False", "dict"} <= kinds), "cover")
+        return {"function": f"{F}::solve+construct_solver", "sha256": sha_s + "+" + sha_c, "variants": [label]}
+    return run
+
+
+TASKS["C01/add_assumptions"] = add_assumptions_task
+TASKS["C01/solve[no assumptions]"] = solve_task(False)
+TASKS["C01/solve[assumptions]"] = solve_task(True)
